@@ -134,6 +134,12 @@ class ExprMixin:
             return Builtin(name)
         if self.tree.class_info(name) is not None:
             return ClassVal(name)
+        if getattr(fr, 'spec', None) is not None:
+            # contract text does not depend on what the module under verification happens to import: mathematical functions
+            # and declared externals are always available to a clause
+            from .eng_call import UF1, UF2
+            if name in UF1 or name in UF2 or self.external_spec([name], fr) is not None:
+                return Builtin(name)
         raise Unsupported('unresolved name %r in %s' % (name, fr.file))
 
     def unknown_name(self, name, origin, st, fr):
